@@ -383,6 +383,8 @@ def evaluate__pow(self: XPathFunction, context: ta.ContextType = None) -> ta.One
         return float(x ** y)
     except TypeError:
         return math.nan
+    except OverflowError:
+        return -math.inf if x < 0 and y % 2 == 1 else math.inf
 
 
 @method(function('sqrt', prefix='math', nargs=1,
